@@ -255,6 +255,11 @@ JudgeTransfer(tr, T, ev) ==
       \* the reference split rounds to whole microlitres; it is comparable only for units of 1/k microlitre
       refok == tr.splitting \/ \A i \in 1..Len(x) : x[i].v <= T.wlmax
       same == a.src = a.dst
+      \* the order among triples whose well on the partitioning side is the same is not pinned by any property (C18): where
+      \* it could decide whether or how a transfer fails, nothing is demanded
+      side == TransferSide(T, a)
+      tiefree == \A i \in 1..Len(x) : \A j \in 1..Len(x) : i # j => SideWell(x[i], side) # SideWell(x[j], side)
+      orderfree == tiefree \/ a.src # a.dst
       extra == ExtraPairs(T, x)
       rb == Run(T, vol, TrackedComp(tr), ev.recs)
   IN {
@@ -266,9 +271,9 @@ JudgeTransfer(tr, T, ev) ==
                       /\ ((\A i \in 1..Len(x) : ~ValidWell(T.lw[a.src].g, x[i].s)) \/ (\A i \in 1..Len(x) : ~ValidWell(T.lw[a.dst].g, x[i].d)))
                       /\ (\A i \in 1..Len(x) : x[i].v > 0),
        ~ok /\ ev.recs = <<>>),
-    Cl("C07.accept", T.dev # "base" /\ valid /\ sized /\ refok /\ ref.out = "ok", ok),
+    Cl("C07.accept", T.dev # "base" /\ valid /\ sized /\ refok /\ ref.out = "ok" /\ orderfree, ok),
     \* never refused for its size, with whatever exception (the volumes fit the labware: the reference run succeeds)
-    Cl("C06.neverrefused", T.dev # "base" /\ valid /\ T.autosplit /\ refok /\ ref.out = "ok", ok),
+    Cl("C06.neverrefused", T.dev # "base" /\ valid /\ T.autosplit /\ refok /\ ref.out = "ok" /\ orderfree, ok),
     \* ... also where the unit of the trace does not allow the reference split to be computed: between two different labware
     \* the source only falls and the destination only rises, so a feasible end state means every split is feasible
     Cl("C06.neverrefused", T.dev # "base" /\ valid /\ T.autosplit /\ ~refok /\ a.src # a.dst
@@ -277,7 +282,7 @@ JudgeTransfer(tr, T, ev) ==
                               /\ \A i \in 1..Len(vol[a.dst]) : fin[a.dst][i] <= T.lw[a.dst].maxv \/ fin[a.dst][i] = vol[a.dst][i],
        ok),
     Cl("C06.nosplit", T.dev # "base" /\ valid /\ ~sized /\ refok /\ ref.out = "invalidop", ev.out = "invalidop"),
-    Cl("C02.outcome", T.dev # "base" /\ valid /\ refok /\ ref.out \in {"overflow", "underflow"} /\ ~ev.tiesbig, ev.out = ref.out),
+    Cl("C02.outcome", T.dev # "base" /\ valid /\ refok /\ ref.out \in {"overflow", "underflow"} /\ ~ev.tiesbig /\ tiefree, ev.out = ref.out),
     Cl("C07.pairs", F.records /\ valid /\ ok, PairsOK(T, a, body)),
     Cl("C07.flows", F.records /\ valid /\ ok, FlowsOK(T, a, x, body)),
     Cl("C18.side", F.records /\ valid /\ ok /\ PairsOK(T, a, body), SideColumnsAscend(T, a, body)),
@@ -457,7 +462,7 @@ JudgeEmit(tr, T, ev) ==
     Cl("C09.foreign", fn = "wash" /\ ~T.diti /\ Foreign(a.n) /\ ok, n = 1 /\ r1.t = "W" /\ r1.scheme = a.n.v /\ a.n.v \in 1..4),
     Cl("C09.foreign", fn = "set_diti" /\ Foreign(a.n) /\ ok, n = 1 /\ r1.t = "S" /\ r1.idx = a.n.v /\ a.n.v >= 0 /\ LastIsBreak),
     Cl("C09.foreign", fn \in {"aspirate_well", "dispense_well"} /\ Foreign(a.pos) /\ ok,
-       n = 1 /\ r1.t = (IF fn = "aspirate_well" THEN "A" ELSE "D") /\ r1.pos = a.pos.v /\ a.pos.v >= 1 /\ r1.cents = VolCents(a.vol)),
+       n = 1 /\ r1.t = (IF fn = "aspirate_well" THEN "A" ELSE "D") /\ r1.pos = a.pos.v /\ r1.cents = VolCents(a.vol)),
     Cl("C09.decon", fn = "decontaminate", IF T.diti THEN ~ok /\ none ELSE ok /\ n = 1 /\ r1.t = "WD"),
     Cl("C09.flush", fn = "flush", ok /\ n = 1 /\ r1.t = "F"),
     Cl("C09.commit", fn = "commit", ok /\ n = 1 /\ r1.t = "B"),
